@@ -200,6 +200,7 @@ def r6(F, rep):
     mirror.check(F, rep, "C15-R6", lambda f: (f.cls or "").startswith("colvar_grid") or f.q in grid_defs, 10,
                  "the grid classes and the functions that define grid boundaries (lower/upper boundaries, hard-boundary and "
                  "expansion flags)")
+    mirror.copy_like_to_like(F, rep, "C15-R6", lambda c: c.startswith("colvar_grid"), 6)
 
 
 def r7(F, rep):
